@@ -234,6 +234,10 @@ structure Plugin where
   vars : Vars
 deriving Repr, DecidableEq
 
+/-- `PluginDescriptor.moved_to_module` -/
+def movedToModule (name : Str) (corePlugin : Bool) : Bool :=
+  [cl!"repository-s3", cl!"repository-gcs", cl!"repository-azure"].contains name && !corePlugin
+
 /-- `BareProvisioner._provisioner_variables` -/
 def provisionerVars (iv : Vars) (plugins : List Plugin) : Vars :=
   let pluginVars := plugins.foldl (fun acc p => dupdate acc p.vars) []
